@@ -59,7 +59,8 @@
 //!    DETECTED after 13 cases ("delivered to output 0, routing function demands 1").
 //!  * R6 round-robin partitioner advances by 2: DETECTED after 7 cases ("not cyclic").
 //!  * R2 `OutputChannel::finalize` drops single-row residual batches of the shared coalescer
-//!    (DESIGN probe "lose the batch held in the shared coalescer"): RESULT_R2
+//!    (DESIGN probe "lose the batch held in the shared coalescer"), full unfiltered `c10 quick`:
+//!    DETECTED after 4 cases ("row 0 (NULL,0) never reached fully read output 0").
 //!
 //! `VF_C10_SCHEME` / `VF_CASES` / `VF_JOIN_SAVE_TIMEOUTS` / `VF_JOIN_SLOW` are probe / triage aids
 //! only (default off; the evidence run never sets them).
